@@ -220,3 +220,50 @@ package core
 //@   ensures [lighter]  old(coming.Header.PreHash != chain.latestBlock.Hash && coming.Header.TotalQN < chain.latestBlock.TotalQN) ==> chain.latestBlock == old(chain.latestBlock) && result != types.AddBlockSucc
 //@   # equal cumulative QN: the local block right after the fork point decides (prove value, then hash)
 //@   ensures [tie]      old(coming.Header.PreHash != chain.latestBlock.Hash && coming.Header.TotalQN == chain.latestBlock.TotalQN && @select(ghost(hashKnown), bytes(coming.Header.PreHash)) && @select(ghost(hgtKnown), @select(ghost(hashHeight), bytes(coming.Header.PreHash)) + 1) && (@select(ghost(hgtPv), @select(ghost(hashHeight), bytes(coming.Header.PreHash)) + 1) > big(coming.Header.ProveValue) || (@select(ghost(hgtPv), @select(ghost(hashHeight), bytes(coming.Header.PreHash)) + 1) == big(coming.Header.ProveValue) && @select(ghost(hgtHash), @select(ghost(hashHeight), bytes(coming.Header.PreHash)) + 1) > @beval(bytes(coming.Header.Hash))))) ==> chain.latestBlock == old(chain.latestBlock) && result != types.AddBlockSucc
+
+// ---------------------------------------------------------------------------------------------
+// Removing the head block (C05): the header cache in front of the height index (topBlocks, keyed by height) must
+// not keep the removed block - otherwise height queries answer a block that is neither in the hash index nor on
+// the chain. ghost lruU64[c][k]: cache c holds an entry under the uint64 key k.
+//@ ghost lruU64 (Array Int (Array (_ BitVec 64) Bool))
+//@ func ext_lruAddU64
+//@   option trusted extern=(*github.com/hashicorp/golang-lru.Cache).Add argtype=1:uint64
+//@   ensures ghost(lruU64) == @store(old(ghost(lruU64)), ref(arg0), @store(@select(old(ghost(lruU64)), ref(arg0)), arg1, true))
+//@   modifies ghost(lruU64)
+
+//@ func ext_lruRemoveU64
+//@   option trusted extern=(*github.com/hashicorp/golang-lru.Cache).Remove argtype=1:uint64
+//@   ensures ghost(lruU64) == @store(old(ghost(lruU64)), ref(arg0), @store(@select(old(ghost(lruU64)), ref(arg0)), arg1, false))
+//@   modifies ghost(lruU64)
+
+//@ func ext_isFullNode
+//@   option trusted extern=com.tuntun.rangers/node/src/common.IsFullNode
+//@   modifies nothing
+
+//@ func blockChain.getReceipts
+//@   option trusted
+//@   modifies nothing
+
+//@ func blockChain.markRemoveBlock
+//@   option trusted
+//@   modifies nothing
+
+//@ func blockChain.eraseRemoveBlockMark
+//@   option trusted
+//@   modifies nothing
+
+//@ func blockChain.queryBlockByHash
+//@   option trusted
+//@   ensures result != nil ==> fresh(result) && result.Header != nil
+//@   modifies nothing
+
+//@ func blockChain.notifyRemovedLogs
+//@   option trusted
+//@   modifies nothing
+
+//@ func blockChain.remove
+//@   property C05
+//@   requires chain != nil && chain.topBlocks != nil && chain.verifiedBlocks != nil && typeid(chain.hashDB) != 0 && typeid(chain.heightDB) != 0 && typeid(chain.verifyHashDB) != 0 && typeid(chain.transactionPool) != 0 && logger != nil
+//@   requires [wf] block != nil ==> block.Header != nil
+//@   ensures [uncached] block != nil ==> !@select(@select(ghost(lruU64), ref(chain.topBlocks)), old(block.Header.Height))
+//@   ensures [head]     result && block != nil ==> chain.latestBlock != nil
